@@ -204,26 +204,31 @@ func constantString(c *ssa.Const) string {
 }
 
 func (vc *VC) globalLoc(g *ssa.Global) string {
-	k := "g:" + g.RelString(nil)
-	if n, ok := vc.strs[k]; ok {
+	return vc.fixedLoc("g:"+g.RelString(nil), false)
+}
+
+// fixedLoc gives a pre-existing object (global, function, ghost cell) its own
+// root id. Program objects get ids 1000.. (top_0 >= 1000000); ghost cells get
+// negative ids, which no program pointer (rt >= 0) can alias.
+func (vc *VC) fixedLoc(k string, ghost bool) string {
+	if vc.locIDs == nil {
+		vc.locIDs = map[string]string{}
+	}
+	if n, ok := vc.locIDs[k]; ok {
 		return n
 	}
-	// globals and functions are pre-existing objects: ids 1000.. (top_0 >= 1000000)
-	id := len(vc.strs) + 1000
-	n := fmt.Sprintf("(L %d PNil)", id)
-	vc.strs[k] = n
+	var n string
+	if ghost {
+		n = fmt.Sprintf("(L (- %d) PNil)", len(vc.locIDs)+2)
+	} else {
+		n = fmt.Sprintf("(L %d PNil)", len(vc.locIDs)+1000)
+	}
+	vc.locIDs[k] = n
 	return n
 }
 
 func (vc *VC) funcLoc(fn *ssa.Function) string {
-	k := "f:" + fn.RelString(nil)
-	if n, ok := vc.strs[k]; ok {
-		return n
-	}
-	id := len(vc.strs) + 1000
-	n := fmt.Sprintf("(L %d PNil)", id)
-	vc.strs[k] = n
-	return n
+	return vc.fixedLoc("f:"+fn.RelString(nil), false)
 }
 
 // run executes the frame from an initial state and returns the merged exit.
@@ -439,7 +444,7 @@ func (f *frame) loopEnv(li *loopInfo, b *ssa.BasicBlock, predIdx int, st *State)
 			if !ok {
 				break
 			}
-			if (name == "$i" && phi.Comment == "rangeindex") || phi.Comment == name {
+			if isRangePhi(name, phi) || phi.Comment == name {
 				if predIdx >= 0 {
 					return f.val(phi.Edges[predIdx]), true
 				}
@@ -458,14 +463,14 @@ func (f *frame) loopEnv(li *loopInfo, b *ssa.BasicBlock, predIdx int, st *State)
 				if !ok {
 					break
 				}
-				if (name == "$i" && phi.Comment == "rangeindex") || (name != "$i" && phi.Comment == name) {
+				if isRangePhi(name, phi) || (name != "$i" && name != "$n" && phi.Comment == name) {
 					if best == nil || best.Dominates(h) {
 						best, bestVal = h, phi
 					}
 				}
 			}
 		}
-		if bestVal != nil && name == "$i" {
+		if bestVal != nil && (name == "$i" || name == "$n") {
 			return f.val(bestVal), true
 		}
 		if v, ok := f.lookupVar(name, b, st); ok {
